@@ -188,12 +188,16 @@ def run(ctx):
         cls = nd.Jacobian if k % 2 else nd.Gradient
         f = (lambda t, A=A: np.dot(A, t) + np.sin(t[0])) if cls is nd.Jacobian else (lambda t, A=A: np.sum(np.dot(A, t) ** 2))
         x = rng.uniform(-1, 1, size=n)
-        d = cls(f, method=method, order=int(rng.choice([2, 4])), full_output=True)
+        ukw = {'step_ratio': float(rng.choice([1.6, 3.0, 4.0]))} if k % 3 == 0 else {}
+        d = cls(f, method=method, order=int(rng.choice([2, 4])), full_output=True, **ukw)
         try:
             val, info, rec = pipe.capture_call(d, x)
         except Exception as ex:   # noqa
             ctx.brk('correspondence', 'nd.%s raised %r' % (cls.__name__, ex), {'n': n, 'm': m, 'method': method})
             continue
+        bad = pipe.context_certificate(rec)
+        if bad:
+            ctx.brk('oracle-certificate', 'nd.%s(f, method=%r, %r)(x): %s' % (cls.__name__, method, ukw, bad), {'n': n, 'm': m, 'method': method, 'options': ukw, 'x': x.tolist()})
         cs, why = pipe.extrapolate_cases(val, info, rec)
         if not why:
             ecases += cs
